@@ -358,16 +358,89 @@ pub fn op_cases() -> Vec<OpCase> {
                 }) });
         }
     }
+    out.extend(bounded_int_cases());
+    out
+}
+
+/// Interesting constant divisors / boundaries for the bounded-int family: small ones, limb
+/// boundaries, and the region around 2**123..2**128 where the libfuncs switch algorithms.
+fn bounded_constants() -> Vec<BigInt> {
+    let b = |k: u32| BigInt::one() << k;
+    vec![
+        BigInt::from(1), BigInt::from(2), BigInt::from(3), BigInt::from(7), BigInt::from(10), BigInt::from(255), BigInt::from(256), BigInt::from(257),
+        b(16), b(32) - 1, b(32), b(63), b(64) - 1, b(64), b(64) + 1, b(96), b(120), b(123) - 1, b(123), b(123) + 1, b(124), b(124) + 1, b(125) + 3, b(126) + 5,
+        b(127), b(127) + 1, b(128) - 1,
+    ]
+}
+
+/// `bounded_int_div_rem` by a constant and `bounded_int_constrain` at a constant boundary, for every
+/// unsigned type (a body with a `//---` line has items before the function).
+fn bounded_int_cases() -> Vec<OpCase> {
+    let mut out = vec![];
+    let hex = |v: &BigInt| if v.is_negative() { format!("-0x{:x}", -v) } else { format!("0x{v:x}") };
+    for &t in TYPES.iter().filter(|t| matches!(t.kind, TyKind::Unsigned)) {
+        for d in bounded_constants() {
+            if d > t.max() {
+                continue;
+            }
+            let qmax = t.max() / &d;
+            let body = format!(
+                "use core::internal::bounded_int::{{BoundedInt, DivRemHelper, UnitInt, div_rem, upcast}};\nconst D_NZ: NonZero<UnitInt<{d}>> = {d};\nimpl H of DivRemHelper<{n}, UnitInt<{d}>> {{\n    type DivT = BoundedInt<0, {qmax}>;\n    type RemT = BoundedInt<0, {rmax}>;\n}}\n//---\nlet (q, r) = div_rem::<{n}, UnitInt<{d}>, H>(a, D_NZ);\n    (upcast(q), upcast(r))",
+                d = hex(&d), n = t.name, qmax = hex(&qmax), rmax = hex(&(&d - 1)),
+            );
+            let dd = d.clone();
+            out.push(OpCase {
+                name: format!("bounded_div_const_{}", hex(&d)),
+                ty: t,
+                params: vec![t],
+                ret: "(felt252, felt252)".into(),
+                body,
+                model: Box::new(move |v| Expected::Value(Val::Struct(vec![Val::Scalar(to_felt(&(&v[0] / &dd))), Val::Scalar(to_felt(&(&v[0] % &dd)))]))),
+            });
+        }
+    }
+    for &t in TYPES.iter().filter(|t| matches!(t.kind, TyKind::Unsigned | TyKind::Signed)) {
+        let mut bounds = bounded_constants();
+        if t.kind == TyKind::Signed {
+            bounds.extend(bounded_constants().into_iter().map(|b| -b));
+            bounds.push(BigInt::zero());
+        }
+        for bnd in bounds {
+            // Both sides of the boundary must be non-empty.
+            if bnd <= t.min() || bnd > t.max() {
+                continue;
+            }
+            let wide = if t.kind == TyKind::Signed { "i128" } else { "felt252" };
+            let body = format!(
+                "use core::internal::bounded_int::{{BoundedInt, ConstrainHelper, constrain, upcast}};\nimpl C of ConstrainHelper<{n}, {b}> {{\n    type LowT = BoundedInt<{lo}, {bm1}>;\n    type HighT = BoundedInt<{b}, {hi}>;\n}}\n//---\nmatch constrain::<{n}, {b}, C>(a) {{\n        Ok(lo) => (0, upcast::<_, {wide}>(lo)),\n        Err(hi) => (1, upcast::<_, {wide}>(hi)),\n    }}",
+                n = t.name, b = hex(&bnd), lo = hex(&t.min()), bm1 = hex(&(&bnd - 1)), hi = hex(&t.max()),
+            );
+            let bb = bnd.clone();
+            out.push(OpCase {
+                name: format!("bounded_constrain_{}", hex(&bnd)),
+                ty: t,
+                params: vec![t],
+                ret: format!("(felt252, {wide})"),
+                body,
+                model: Box::new(move |v| Expected::Value(Val::Struct(vec![Val::Scalar(to_felt(&BigInt::from((v[0] >= bb) as u8))), Val::Scalar(to_felt(&v[0]))]))),
+            });
+        }
+    }
     out
 }
 
 pub fn source_of(case: &OpCase) -> String {
     let params: Vec<String> = case.params.iter().enumerate().map(|(i, t)| format!("{}: {}", ["a", "b"][i], t.name)).collect();
+    // Items before the function, if any, are separated from the body by a `//---` line.
+    let (prelude, body) = match case.body.split_once("\n//---\n") {
+        Some((p, b)) => (format!("#[feature(\"bounded-int-utils\")]\n{}\n", p.replace("\nconst ", "\n#[feature(\"bounded-int-utils\")]\nconst ").replace("\nimpl ", "\n#[feature(\"bounded-int-utils\")]\nimpl ")), b),
+        None => (String::new(), case.body.as_str()),
+    };
     format!(
-        "#[feature(\"corelib-internal-use\")]\n#[feature(\"bounded-int-utils\")]\nfn op({}) -> {} {{\n    {}\n}}\n",
+        "{prelude}#[feature(\"corelib-internal-use\")]\n#[feature(\"bounded-int-utils\")]\nfn op({}) -> {} {{\n    {}\n}}\n",
         params.join(", "),
         case.ret,
-        case.body
+        body
     )
 }
 
@@ -402,6 +475,27 @@ pub fn inputs(case: &OpCase, tier: Tier, rng: &mut Rng, exhaustive8: bool) -> (V
         let full = if small_exp(case, 0) { bounds[0].clone() } else { case.params[0].all_powers() };
         for a in &full {
             out.push(vec![a.clone()]);
+        }
+        // Bounded-int family: multiples of the constant (smallest and largest quotients) and the
+        // neighbours of the boundary.
+        if let Some(c) = case.name.strip_prefix("bounded_div_const_").or_else(|| case.name.strip_prefix("bounded_constrain_")) {
+            let (neg, digits) = match c.strip_prefix("-0x") {
+                Some(d) => (true, d),
+                None => (false, c.trim_start_matches("0x")),
+            };
+            if let Some(c) = BigInt::parse_bytes(digits.as_bytes(), 16) {
+                let c = if neg { -c } else { c };
+                let t = case.params[0];
+                let qmax = if c.is_positive() { t.max() / &c } else { BigInt::zero() };
+                for k in [BigInt::from(0), BigInt::from(1), BigInt::from(2), BigInt::from(3), &qmax - 1, qmax.clone(), &qmax / 2] {
+                    for dlt in [-1i32, 0, 1] {
+                        let v = &k * &c + dlt;
+                        if t.contains(&v) {
+                            out.push(vec![v]);
+                        }
+                    }
+                }
+            }
         }
     } else {
         // Every power-of-two neighbour of each operand against a few partners (all reduced
